@@ -52,6 +52,9 @@ type ThreadInfo struct {
 	Blocked  bool
 	What     string   // operation it is blocked in / was about to perform
 	Stack    []string // innermost frames outside the scheduler (function names)
+	// LastPreempt is the function in which the thread was last preempted
+	// (descheduled while still enabled); "-" if never.
+	LastPreempt string
 }
 
 // Result of one controlled execution.
@@ -84,6 +87,7 @@ type Thread struct {
 	recov    string // text of the last recovered panic (sched.Recover)
 	stackTxt string // debug.PrintStack replacement
 	fp       uint64 // fingerprint of the park position
+	lastPre  string
 }
 
 // Sched is the scheduler of one execution.
@@ -101,6 +105,7 @@ type Sched struct {
 	epoch   uint64
 	states  map[uint64]struct{}
 	rep     Replayer
+	inQuiesce bool
 }
 
 // S is the active scheduler of this process (nil = free mode: shim operations
@@ -144,7 +149,10 @@ func Run(ch Chooser, cfg Config, main func()) *Result {
 	r := s.res
 	r.Steps = s.steps
 	for _, th := range s.threads {
-		ti := ThreadInfo{ID: th.ID, Name: th.Name, Daemon: th.Daemon, Finished: th.finished, Blocked: th.blocked, What: th.what}
+		ti := ThreadInfo{ID: th.ID, Name: th.Name, Daemon: th.Daemon, Finished: th.finished, Blocked: th.blocked, What: th.what, LastPreempt: th.lastPre}
+		if ti.LastPreempt == "" {
+			ti.LastPreempt = "-"
+		}
 		if !th.finished {
 			ti.Stack = frames(th.pcs[:th.npc])
 		}
@@ -194,6 +202,9 @@ func describeDeadlock(r *Result) string {
 		fmt.Fprintf(&b, "  T%d %s (%s): %s", t.ID, t.Name, kind, st)
 		if len(t.Stack) > 0 {
 			fmt.Fprintf(&b, " at %s", strings.Join(t.Stack, " < "))
+		}
+		if t.LastPreempt != "-" && t.LastPreempt != "" {
+			fmt.Fprintf(&b, "  [last preempted in %s]", t.LastPreempt)
 		}
 		b.WriteString("\n")
 	}
@@ -397,6 +408,26 @@ func where() string {
 	}
 }
 
+// whereFunc is the innermost function outside the scheduler (no line number).
+func whereFunc() string {
+	var pcs [12]uintptr
+	n := runtime.Callers(3, pcs[:])
+	fr := runtime.CallersFrames(pcs[:n])
+	for {
+		f, more := fr.Next()
+		if f.Function != "" && !strings.Contains(f.Function, "verif/mc/sched") {
+			fn := f.Function
+			if i := strings.LastIndex(fn, "/"); i >= 0 {
+				fn = fn[i+1:]
+			}
+			return fn
+		}
+		if !more {
+			return "?"
+		}
+	}
+}
+
 // Point is the scheduling point before a shim operation. It returns the
 // scheduler and the calling thread; (nil,nil) in free mode and (s,nil) during
 // teardown (the operation must then be a non-blocking no-op).
@@ -443,6 +474,7 @@ func Point(op string) (*Sched, *Thread) {
 	}
 	if c != 0 {
 		s.capture(t, op)
+		t.lastPre = whereFunc()
 		s.switchTo(t, others[c-1])
 	}
 	return s, t
@@ -740,3 +772,30 @@ func LogFatalln(a ...any) { Fatal("log.Fatalln", fmt.Sprintln(a...)) }
 // Sleep replaces time.Sleep: there is no real time under the scheduler, a
 // sleeping thread just lets the others run.
 func Sleep[D ~int64](d D) { Yield() }
+
+// Quiesce blocks the calling thread until no other thread is enabled (every
+// daemon has run until it blocked or finished). Harness use: take end-of-run
+// observables at a schedule-independent moment.
+func Quiesce() {
+	s := S
+	if s == nil {
+		return
+	}
+	_, t := Point("quiesce")
+	if t == nil {
+		return
+	}
+	idle := func() bool {
+		if s.inQuiesce {
+			return false
+		}
+		s.inQuiesce = true
+		var buf [8]*Thread
+		n := len(s.enabledOthers(t, buf[:0]))
+		s.inQuiesce = false
+		return n == 0
+	}
+	for !idle() {
+		s.Block(t, "quiesce", idle)
+	}
+}
